@@ -171,3 +171,30 @@ PROPS["C19"] = {
               "text": "Generated-input search: 722 generated call sites (17 entry points x 6 finalizers x Event/Context caller mechanisms, the Print family on a Logger and in package log, direct Logger.Write) are executed through 0..3 (0..5 thorough) wrapper frames with skips 0..3 (0..5), under Context.Caller, CallerWithSkipFrameCount(2+j) and a global CallerSkipFrameCount of 2+j, with other hooks before/after; the caller field must be exactly one and equal the frame the oracle captured. Sequences on shared loggers check that pooled events do not inherit skip counts. Held on everything explored.",
               "note": "Trusts runtime.Callers/CallersFrames. Skips deeper than the harness's own stack are not cases."},
 }
+
+PROPS["C18"] = {
+    "jobs": [
+        {"name": "proxy", "pkg": "./c18", "run": "^(TestProxyExhaustive)$", "timeout": T(600, 3600)},
+        {"name": "proxy-rapid", "pkg": "./c18", "run": "^TestProxyRapid$", "rapid": T(10000, 100000), "shards": T(1, 4), "replay": "^TestReplay$"},
+        {"name": "isolation", "pkg": "./c18", "run": "^TestIsolation$", "rapid": T(400, 3000), "shards": T(2, 8)},
+        {"name": "isolation-race", "pkg": "./c18", "race": True, "run": "^TestIsolation$", "rapid": T(120, 800), "shards": T(1, 4)},
+    ],
+    "assumptions": ["requests are served by direct ServeHTTP calls from goroutines and held in flight together by a barrier in the innermost handler",
+                    "Tee is not part of the quantified call alphabet; Flush only after the header was sent",
+                    "isolation jobs see the interleavings the Go scheduler produces (barrier-maximised overlap) plus -race"],
+    "claim": {"ref": "DESIGN.md §5 C18", "technique": "bounded-exhaustive enumeration of ResponseWriter call sequences against a proxy accounting model + rapid-generated handler chains with concurrent in-flight requests (per-request value model, -race)",
+              "text": "Generated-input search: (a) every call sequence up to length 4 (5 thorough) over WriteHeader/Write/ReadFrom/Flush on the AccessHandler proxy, over three capability sets and four byte-acceptance scripts of the underlying writer, and random longer sequences, must report (first WriteHeader | 200 if body first | 0, bytes the underlying writer accepted); (b) 2..16 (64 thorough) concurrent requests with pairwise distinct attributes through NewHandler + a generated subset/order of all 15 field handlers + AccessHandler must each log exactly their own values, with the base logger emitting the same probe event before and after. Held on everything explored.",
+              "note": "Proxy part deterministic. Isolation part limited to runtime-produced interleavings with all requests in flight, plus the race detector."},
+}
+
+PROPS["C07"] = {
+    "jobs": [
+        {"name": "json", "pkg": "./c07", "run": "^(TestRapidChains|TestEachFamily)$", "rapid": T(3000, 20000), "shards": T(1, 8), "replay": "^TestReplay$"},
+        {"name": "cbor", "pkg": "./c07", "tags": "binary_log verif", "run": "^(TestRapidChains|TestEachFamily)$", "rapid": T(3000, 20000), "shards": T(1, 8), "replay": "^TestReplay$"},
+    ],
+    "assumptions": ["testing.AllocsPerRun(100, chain) integer-averages: a path allocating less than once per 100 events is not seen",
+                    "all arguments (slices, errors, boxed values, closures, marshalers) exist before the measured function; the race detector is off"],
+    "claim": {"ref": "DESIGN.md §5 C07", "technique": "property-based testing (rapid) of chains over the allocation-free method set in both builds; oracle: testing.AllocsPerRun == 0 and no write when filtered",
+              "text": "Generated-input search: random chains of 1..8 steps (nested Dict/Array/Object/Func to depth 2) over exactly the method families the statement lists, on bare/context/timestamp-hook/level-filtered/Nop loggers, finalised by Msg or Send, are measured with testing.AllocsPerRun(100) in the JSON and the binary_log build; additionally every family alone x 12 values x 6 logger kinds. Zero allocations are required, and zero writes for filtered loggers. Held on everything explored.",
+              "note": "Measurement trusts the Go runtime's allocation counter. Arr().Dict(d) (not in the statement's method list) is not generated."},
+}
